@@ -307,6 +307,8 @@ static void runCase(const std::string& mode, const std::string& id, const std::s
             Dumper d(doc, os);
             DocWalker w(d);
             doc.accept(w);
+            d.walk("global/before_update", doc.get_before_update());
+            d.walk("global/after_update", doc.get_after_update());
             std::cout << os.str();
         } catch (std::exception& e) {
             std::cout << "E " << vh::quote(std::string("walk-exception:") + e.what()) << "\n";
